@@ -16,7 +16,7 @@ from ..universe import PK
 
 ID = "C11"
 LEVEL = "model_checking"
-ASSUMPTIONS = ["see C09; the reference matcher is used only to decide which (filter, event) pairs are unrelated, never what an answer should be"]
+ASSUMPTIONS = ["real nostr_relay code imported from /repo's working tree, driven through web.start_client / the storage API; SQLite runs for real behind a same-thread connection shim (bound to real aiosqlite by C06's conformance cases); LMDB is an in-memory double (bound to the real liblmdb by C10's conformance cases), msgpack is pip's pure-python codec; asyncio runs on a controlled virtual-time loop; the reference matcher is used only to decide which (filter, event) pairs are unrelated, never what an answer should be"]
 CHUNK = 8
 DETERMINISM_SELFTEST = False  # phase 2 is pure table lookup; phase 1 repeats its first store (see _tabulate)
 
